@@ -25,7 +25,7 @@ from typing import Any, Callable
 
 from kv import coqio as cq, framework as fw, vloop
 
-RULE = ('cases = (fault sequence of length 0..12 over {ok, 4xx, 401, 403, 429(+Retry-After header/details), 5xx(+Retry-After), '
+RULE = ('cases = (fault sequence of length 0..12 over {ok, 4xx, 401, 403/429/5xx (each with and without Retry-After, header and details style), '
         'connection error, timeout, SSL-closed, session-closed, foreign exception} x backoff configuration {(), scalar, '
         'finite tuple/list, endless re-iterable} x enforce_retry_after) for api.request; (error-delay sequence x episodes '
         'of {ok, error, escalating} runs with wake-ups) for throttled; (1..5 requesters x revocation times x login '
@@ -207,21 +207,28 @@ STATUSES_PLAIN = [400, 404, 409, 410, 422, 451, 499]
 STATUSES_5XX = [500, 502, 503, 504, 599]
 
 
-def gen_fault(r: Any, ra_on_5xx: bool) -> tuple:
+def gen_ra(r: Any) -> tuple:
+    """(Retry-After header, details.retryAfterSeconds): both styles, alone and together, incl. 0."""
+    k = r.randrange(6)
+    if k < 2:
+        return (None, None)
+    if k < 4:
+        return (r.choice([0, 1, 2, 3, 5, 7, 8, 13, 30, 40]), None)
+    if k == 4:
+        return (None, r.choice([0, 1, 4, 6, 9, 11]))
+    return (r.choice([1, 2, 7, 30]), r.choice([0, 4, 9]))
+
+
+def gen_fault(r: Any, _unused: bool = False) -> tuple:
     k = r.randrange(20)
     if k < 2:
         return ('ok',)
     if k < 6:
-        code = r.choice(STATUSES_5XX)
-        if ra_on_5xx and r.random() < 0.25:
-            return ('status', code, r.choice([None, 1, 2, 7, 30]), r.choice([None, None, 4, 9]))
-        return ('status', code, None, None)
+        return ('status', r.choice(STATUSES_5XX), *gen_ra(r))
     if k < 8:
-        return ('status', 403, None, None)
+        return ('status', 403, *gen_ra(r))
     if k < 12:
-        hdr = r.choice([None, None, 0, 1, 2, 3, 5, 8, 13, 40])
-        det = r.choice([None, None, None, 0, 1, 6, 11])
-        return ('status', 429, hdr, det)
+        return ('status', 429, *gen_ra(r))
     if k < 14:
         return ('conn',)
     if k < 16:
@@ -343,15 +350,6 @@ def int_times(ts: list[float]) -> list[int] | None:
     return [int(round(t)) for t in ts]
 
 
-def match_f1201(f: dict) -> bool:
-    """F1201: a 5xx answer carrying Retry-After is retried after the plain backoff, sooner than requested."""
-    if f['sig'] != 'waited-less-than-retry-after':
-        return False
-    o = f['observed']
-    return (o['fault'][0] == 'status' and 500 <= o['fault'][1] <= 599 and o['gap'] == o['backoff']
-            and o['gap'] < o['retry_after'])
-
-
 def monitor_request(ctx: fw.Ctx, case: dict, out: dict) -> None:
     """The property text evaluated on the attempts the fake session saw."""
     script, b = case['script'], case['backoffs']
@@ -450,8 +448,8 @@ def gen_transient(r: Any, ra5: bool) -> tuple:
 
 
 def exhaustive_request_cases(maxlen: int) -> list[dict]:
-    """All sequences up to maxlen over a 7-letter fault alphabet, against one finite backoff list."""
-    alphabet = [('ok',), ('status', 500, None, None), ('status', 403, None, None), ('status', 429, 4, None),
+    """All sequences up to maxlen over an 8-letter fault alphabet, against one finite backoff list."""
+    alphabet = [('ok',), ('status', 500, None, None), ('status', 503, None, 6), ('status', 403, None, None), ('status', 429, 4, None),
                 ('conn',), ('status', 404, None, None), ('status', 401, None, None)]
     cases = []
     for n in range(maxlen + 1):
@@ -1216,7 +1214,8 @@ def run_proc(case: dict, with_faults: bool) -> dict:
             for t0, t1, kind in case['windows']:
                 if t0 <= rec['t'] < t1:
                     return {'500': ('status', 500, None, None), '409': ('status', 409, None, None), 'conn': ('conn',),
-                            'timeout': ('timeout',), 'other': ('other',), '429': ('status', 429, 3, None)}[kind]
+                            'timeout': ('timeout',), 'other': ('other',), '429': ('status', 429, 3, None),
+                            '503ra': ('status', 503, 3, None)}[kind]
         body = bodies_[name]
         if isinstance(rec['json'], dict):
             body = canon.merge7386(body, rec['json'])
@@ -1338,7 +1337,7 @@ def gen_proc_case(r: Any) -> dict:
     for _ in range(r.choice([1, 1, 2])):
         w0 += r.choice([0, 0, 3, 10])
         w1 = w0 + r.choice([1, 4, 10, 30, 80])
-        windows.append([w0, w1, r.choice(['500', '500', 'conn', 'timeout', '409', 'other', '429'])])
+        windows.append([w0, w1, r.choice(['500', '500', 'conn', 'timeout', '409', 'other', '429', '503ra'])])
         w0 = w1 + r.choice([5, 20])
     return {'delays': d, 'backoffs': r.choice([[], [1], [1, 2]]), 'events': events, 'windows': windows, 'tail': 400}
 
@@ -1416,7 +1415,7 @@ def load_corpus() -> list[dict]:
 
 
 def run(ctx: fw.Ctx) -> int:
-    ctx.matchers = {'F1201': match_f1201, 'F1202': match_f1202, 'F1203': match_f1203}
+    ctx.matchers = {'F1202': match_f1202, 'F1203': match_f1203}
     ctx.proofs()
     ok, logtxt = fw.build_models(['Model/Retry.v', 'Model/Throttle.v', 'Model/Vault.v'])
     if not ok:
